@@ -36,7 +36,7 @@ RULE = ("case = (labelled dependency graph, request list). Exhaustive: every dig
 TRUSTED = [
     "hand model Model.Tasks (visit = Project.dfs loop with the recursive call inlined; names = ranks in sorted order), tied by exhaustive differential run on every check",
     "Spec.Tasks (inductive dependency paths, Needed, CycleReachable, ExactlyOnce, AfterDeps) written from the property text",
-    "independent Python oracle (closure + Kahn) used to evaluate the property on the observed history",
+    "independent Python oracle (Warshall closure; cross-checked against worklist closure + Kahn peeling on all keyed cases) used to evaluate the property on the observed history",
 ]
 ASSUMPTIONS = [
     "a target's execution is observed through one recording task per target (registered in task_map as 'verifrecord')",
@@ -153,8 +153,39 @@ def gstr(graph):
 # --------------------------------------------------------------------------------------------
 # the property, evaluated independently of both the code and the model
 # --------------------------------------------------------------------------------------------
+_closure_cache = [None, None]
+
+
+def closure(graph):
+    """transitive closure (paths of length >= 1) by Warshall: {v: set of w with v ->+ w}; cached for the last graph"""
+    if _closure_cache[0] is graph:
+        return _closure_cache[1]
+    nodes = set(graph)
+    for ds in graph.values():
+        nodes.update(ds)
+    plus = {v: set(graph.get(v, ())) for v in nodes}
+    for k in nodes:
+        pk = plus[k]
+        for v in nodes:
+            if k in plus[v]:
+                plus[v] |= pk
+    _closure_cache[0], _closure_cache[1] = graph, plus
+    return plus
+
+
 def oracle(graph, req):
     """needed set (reflexive-transitive closure of req), cycle-reachable?, dangling name needed?"""
+    plus = closure(graph)
+    needed = set(req)
+    for r in req:
+        needed.update(plus.get(r, ()))
+    dangling = any(v not in graph for v in needed)
+    cyclic = any(v in plus.get(v, ()) for v in needed)
+    return needed, cyclic, dangling
+
+
+def oracle_kahn(graph, req):
+    """second, differently computed oracle (worklist closure + Kahn peeling); cross-checked against `oracle` on the corpus"""
     needed, todo = set(), list(req)
     while todo:
         v = todo.pop()
@@ -162,7 +193,6 @@ def oracle(graph, req):
             needed.add(v)
             todo.extend(graph.get(v, ()))
     dangling = any(v not in graph for v in needed)
-    # Kahn: peel off targets all of whose dependencies are peeled; what remains contains a cycle
     left = set(needed)
     progress = True
     while progress:
@@ -225,9 +255,64 @@ def evaluate(graph, req, impl, fails, site="run"):
 # --------------------------------------------------------------------------------------------
 # one batch of cases: impl, model, comparison, property
 # --------------------------------------------------------------------------------------------
-def driver(lines):
+IR_SOURCES = ["Drivers/C34.c", "PpciVerif/Model/Proto.c", "PpciVerif/Model/Tasks.c", "PpciVerif/Model/TasksLegacy.c"]
+_native = {"exe": None, "tried": False, "why": ""}
+
+
+def native_exe():
+    """The driver compiled to machine code (leanc over the C files `lake build` has just produced for Drivers.C34
+    and the three Model modules it imports): same Lean definitions, ~50x faster than `lean --run`, which matters for
+    the 1.1 million `all` requests of the thorough tier.  Cached under lean/.lake/build/c34/ by the hash of the C
+    sources; None (-> interpreter) when it cannot be built."""
+    if _native["tried"]:
+        return _native["exe"]
+    _native["tried"] = True
+    import fcntl
+    import hashlib
+    import shutil
+    from harness import common
+    try:
+        ir = common.LEAN / ".lake" / "build" / "ir"
+        srcs = [ir / f for f in IR_SOURCES]
+        h = hashlib.sha1()
+        for f in srcs:
+            h.update(f.read_bytes())
+        out = common.LEAN / ".lake" / "build" / "c34"
+        out.mkdir(parents=True, exist_ok=True)
+        exe = out / f"c34drv-{h.hexdigest()[:16]}"
+        with open(out / ".lock", "w") as lock:
+            fcntl.flock(lock, fcntl.LOCK_EX)
+            if not exe.exists():
+                if not shutil.which("leanc"):
+                    raise RuntimeError("leanc not found")
+                tmp = out / f".tmp-{os.getpid()}"
+                p = subprocess.run(["leanc", "-O2", "-o", str(tmp), *map(str, srcs)], capture_output=True, text=True, timeout=900)
+                if p.returncode != 0:
+                    raise RuntimeError("leanc failed: " + p.stderr[-300:])
+                for old in out.glob("c34drv-*"):
+                    old.unlink()
+                os.replace(tmp, exe)
+        _native["exe"] = str(exe)
+    except Exception as e:  # noqa
+        _native["why"] = f"{type(e).__name__}: {e}"[:300]
+    return _native["exe"]
+
+
+def driver_interp(lines):
     from harness import common
     return common.Ctx.driver(None, "C34", lines)
+
+
+def driver(lines):
+    exe = native_exe()
+    if exe is None:
+        return driver_interp(lines)
+    from harness import common
+    p = subprocess.run([exe], input="".join(l + "\n" for l in lines), capture_output=True, text=True, timeout=1800)
+    out = p.stdout.splitlines()
+    if p.returncode != 0 or len(out) != len(lines):
+        raise common.BrokenCheck(f"native driver C34: rc={p.returncode}, {len(out)} replies for {len(lines)} requests\n" + p.stderr[-1000:])
+    return out
 
 
 def new_summary():
@@ -333,6 +418,8 @@ class Batch:
             bump(s, "disagreements")
         fails = []
         needed, cyclic, dangling = evaluate(graph, req, impl, fails, site)
+        if self.keep_keys and oracle_kahn(graph, req) != (needed, cyclic, dangling):
+            raise RuntimeError(f"the two property oracles differ on {g_of(graph)} {req}")
         for sig, what in fails:
             bump(s, "fail_" + sig)
             if sum(1 for f in s["fails"] if f["signature"] == sig) < 5:
@@ -515,6 +602,16 @@ def check(ctx):
     #    lists, dangling names — one batch, one driver process
     b = Batch()
     b.add_cases(corpus_cases())
+    if native_exe() is None:
+        ctx.note("native driver unavailable (" + _native["why"] + "): the interpreter (`lean --run`) answers every request")
+    else:
+        # the compiled driver must answer exactly like `lean --run Drivers/C34.lean` (corpus + all graphs on <= 3 targets)
+        probe = list(b.lines) + [f"all {gstr(graph_of_mask(3, pairs_of(3, True), m))} 3" for m in range(512)]
+        if driver(probe) != driver_interp(probe):
+            from harness.common import BrokenCheck
+            raise BrokenCheck("compiled driver and `lean --run` driver disagree")
+        ctx.count("native_vs_interpreter_requests", len(probe))
+        ctx.extra_cov["driver"] = "leanc-compiled Drivers/C34 (cross-checked against `lean --run` on %d requests)" % len(probe)
     for n, loops in ((1, False), (2, False), (3, False), (4, False), (1, True), (2, True), (3, True)):
         b.add_spec((n, loops, 0, 1 << len(pairs_of(n, loops))))
     b.add_cases(random_cases(ctx.rng, 6000 if ctx.thorough else 600))
